@@ -65,6 +65,8 @@ impl WaitSlot {
         vemit!(WAIT, "N_Yield", "slot" => self as *const Self as usize);
         thread::yield_now();
         if blocked() {
+            // The window between the second predicate check and parking.
+            vpoint!(WAIT, "N_PrePark");
             #[cfg(grevm_verif)]
             if let Some(hooks) = crate::verif::controlled() {
                 // Token semantics of `park`, but the stall timer never fires: a lost wake-up is a
